@@ -336,6 +336,11 @@ class Frame(object):
         # add back the waterfall object.
         waterfall = self.get_waterfall()
         if waterfall is not None:
+            # Remove h5 object, which can't be copied (as in from_data)
+            try:
+                del waterfall.container.h5
+            except AttributeError:
+                pass
             c_frame.waterfall = copy.deepcopy(waterfall)
         return c_frame
 
